@@ -49,8 +49,13 @@ func gen(r *harn.Rng, tier string) interface{} {
 		}
 	}
 	sc.DelayNs = delays[r.Intn(len(delays))]
-	if sc.Kind != "delayfilter" && sc.Kind != "routerfilter" && r.Bool(0.25) {
+	if sc.Kind != "routerfilter" && r.Bool(0.25) {
+		// routers: Stop and Start; delay filter: Run is cancelled and started again (what waits
+		// for its delay must still be forwarded)
 		sc.RestartAtNs = int64(r.Pick(1, 1000, 500000, 1000000, 10000000, 30000000))
+	}
+	if sc.Kind == "router" && sc.JitterNs == 0 && r.Bool(0.05) {
+		sc.JitterNs = -1 // a negative jitter means no jitter
 	}
 	np := r.Range(1, 3)
 	if sc.Kind == "router" || sc.Kind == "chain" || sc.Kind == "routerfilter" {
@@ -141,6 +146,18 @@ func run(env *simrt.Env, sci interface{}) {
 	}
 	ctx, cancel := context.WithCancel(context.Background())
 	runner := env.Go("run", func() { df.Run(ctx) })
+	var restarter *simrt.Handle
+	if sc.RestartAtNs > 0 {
+		restarter = env.Go("restarter", func() {
+			env.Sleep(time.Duration(sc.RestartAtNs))
+			cancel()
+			env.Join(runner)
+			env.Fault("filter-run-restart")
+			ctx, cancel = context.WithCancel(context.Background())
+			c2 := ctx
+			runner = env.Go("run2", func() { df.Run(c2) })
+		})
+	}
 	var sents []*sent
 	nextID := uint32(1)
 	plans := make([][]*sent, len(sc.Producers))
@@ -173,6 +190,9 @@ func run(env *simrt.Env, sci interface{}) {
 	env.Join(hs...)
 	// no quiet period can be demanded (the idle timer keeps firing) and stall faults eat
 	// simulated time, so "eventually" is: two hours pass without a single further forward
+	if restarter != nil {
+		env.Join(restarter)
+	}
 	for {
 		n := len(got)
 		env.Idle(2 * time.Hour)
